@@ -90,3 +90,44 @@ package tx_pool
 //@   requires l != nil
 //@   modifies *
 //@   atcall txLookup.GetRemote requires [stalenessAgainstTheRemoteSet] t == l.all && hash == types.txHashOf(tx)
+
+// Removing a nonce invalidates the cached sorted view as well (Flatten/LastElement would otherwise keep
+// offering the removed transaction).
+//@ func (m *txSortedMap) Remove(nonce uint64) (r bool)
+//@   for C17
+//@   requires m != nil && m.index != nil
+//@   modifies *
+//@   ensures [cachedViewInvalidated] r ==> len(m.cache) == 0 && cap(m.cache) == 0
+//@   ensures [removed] !has(m.items, nonce)
+//@   loop 1:
+//@     invariant 0 <= i
+
+// Cap and Underpriced skip stale heap entries by the same test as Discard: gone from the REMOTE set.
+//@ func (l *txPricedList) Cap(threshold *big.Int) (drops types.Transactions)
+//@   for C17
+//@   requires l != nil && l.remotes != nil
+//@   modifies *
+//@   opt assumecallreqs
+//@   atcall txLookup.GetRemote requires [stalenessAgainstTheRemoteSet] t == l.all && hash == types.txHashOf(cheapest)
+//@ func (l *txPricedList) Underpriced(tx *types.Transaction) (r bool)
+//@   for C17
+//@   requires l != nil && l.remotes != nil
+//@   modifies *
+//@   opt assumecallreqs
+//@   atcall txLookup.GetRemote requires [stalenessAgainstTheRemoteSet] t == l.all && hash == types.txHashOf(head)
+
+// The virtual nonce of an account is never above a nonce the pool no longer offers: whenever a
+// transaction is taken out of an account's pending list, the account's virtual nonce is lowered to it.
+//@ func (txn *txNoncer) setIfLower(addr common.Address, nonce uint64)
+//@   for C17
+//@   requires txn != nil && txn.nonces != nil && txn.fallback != nil
+//@   modifies *
+//@   ensures [notAboveAfterwards] has(txn.nonces, addr) && txn.nonces[addr] <= nonce
+//@ func (pool *TxPool) removeTx(hash common.Hash, outofbound bool)
+//@   for C17
+//@   requires pool != nil
+//@   modifies *
+//@   opt assumecallreqs
+//@   opt noinline
+//@   atcall txNoncer.setIfLower requires [loweredToTheRemovedNonce] txn == pool.pendingNonces && addr == result(Sender, 0) && nonce == types.txNonce(result(txLookup.Get))
+//@   ensures [virtualNonceLoweredWheneverAPendingTxGoes] called(nth(txList.Remove, 1)) && result(nth(txList.Remove, 1), 0) ==> called(txNoncer.setIfLower)
